@@ -220,9 +220,9 @@ pub fn programs(thorough: bool, rng: &mut Rng) -> Vec<(Program, usize, usize)> {
     let mut v: Vec<(Program, usize, usize)> = vec![];
     let p = |name: &str, init: (usize, usize, usize), prods: Vec<Vec<Op>>, cons: Vec<Op>, stop: Vec<Op>| Program {
         name: name.into(), init, pipe: name.starts_with("pipe-"), prods, cons, stop };
-    let k = if thorough { 8 } else { 1 };
+    let k = if thorough { 5 } else { 1 };
     // exhaustive (all interleavings) only where the whole tree fits the tier; random walks otherwise
-    let big = if thorough { 60_000 } else { 0 };
+    let big = if thorough { 40_000 } else { 0 };
     // one producer, one consumer
     // the complete send ‖ recv interleaving tree (14 586 schedules) is part of BOTH tiers
     v.push((p("1p-send-recv", (1, 0, 1), vec![vec![s1(1)]], vec![Op::Recv], vec![]), 60_000, 0));
